@@ -722,12 +722,10 @@ class C10(Prop):
                     comps = [(q[k], "gev", [mus[k], lam[k], als[k]]) for k in range(len(q))]
                     par = ("mixgev", kv["q"], kv["mu"], kv["l"], kv["al"])
                 x = unhex(kv["x"])
-                if which == "invcdf" and fam == "mixgev" and x == 1.0:
-                    # p = 1 (at or above the largest cdf value): since 55bbf88 the right bracket stops at +inf at the latest
-                    xr = res[0]
-                    if not (xr == math.inf or (xr == xr and R.mix_reference(xr, comps)["cdf"][0] >= 1 - 1e-14)):
-                        return Failure("monitor", "esl_mixgev_invcdf(1) = %r, where the cdf is still %s; %s" % (
-                            xr, R.mpmath.nstr(R.mix_reference(xr, comps)["cdf"][0], 17) if xr == xr else "undefined", op))
+                if which == "invcdf" and fam == "mixgev" and x == 1.0 and res[0] == math.inf:
+                    # p = 1 at or above the largest cdf value: since 55bbf88 the right bracket stops at +inf at the latest and the
+                    # bisection returns +inf; a finite answer is judged like any other quantile below (cdf within 1e-9 of p inside
+                    # the bisection's 1e-6 relative bracket - e.g. just left of a Weibull-type component's support bound)
                     continue
                 if which == "invcdf" and fam == "hxp" and x in (0.0, 1.0):
                     xr = res[0]
